@@ -319,8 +319,12 @@ type ReregCase struct {
 	NewArgs int     `json:"new_args"` // argument count of the second implementation (1 or 2)
 }
 
-func swapV1(args []xpath.Datum) xpath.Datum { return xpath.NewLiteralDatum("v1:" + args[0].Literal("verif-swap")) }
-func swapV2(args []xpath.Datum) xpath.Datum { return xpath.NewLiteralDatum("v2:" + args[0].Literal("verif-swap")) }
+func swapV1(args []xpath.Datum) xpath.Datum {
+	return xpath.NewLiteralDatum("v1:" + args[0].Literal("verif-swap"))
+}
+func swapV2(args []xpath.Datum) xpath.Datum {
+	return xpath.NewLiteralDatum("v2:" + args[0].Literal("verif-swap"))
+}
 
 func registerSwap(fn xpath.CustomFn, nargs int) {
 	ac := []xpath.DatumTypeChecker{xpath.TypeIsLiteral}
